@@ -16,6 +16,8 @@ Core == { U("Meters"), U("Feet"), U("Seconds"), U("Minutes"), U("Hertz"), U("Gra
           Mul(U("Meters"), U("Meters")), Div(U("Meters"), U("Seconds")), PowE(U("Meters"), 1, 2), PowE(U("Seconds"), -1, 1), PowE(U("Meters"), 3, 2), PowE(U("Seconds"), -1, 2), PowE(U("Feet"), 2, 3), PowE(U("Hertz"), 1, 2), PowE(U("Feet"), 1, 2), PowE(Pf("kilo", U("Hertz")), 1, 2),
           Sc(U("Feet"), <<BP(6, 1, 1)>>), Pf("kilo", U("Meters")), Div(U("Joules"), U("Newtons")), Mul(U("Hertz"), U("Seconds")),
           \* distinct anonymous compound units of one dimension AND one magnitude: operations between them are valid programs
+          \* two anonymous scaled units of different dimensions
+          Sc(U("Meters"), <<BP(6, 1, 1)>>), Sc(U("Seconds"), <<BP(10, 1, 1)>>), Sc(U("Seconds"), <<BP(4, -2, 1)>>),
           Mul(U("Newtons"), U("Meters")), Mul(U("Watts"), U("Seconds")), Mul(U("Meters"), U("Hertz")), Div(U("Coulombs"), U("Seconds")) }
 BaseUnits == <<"Meters", "Grams", "Seconds", "Amperes", "Kelvins", "Moles", "Candelas", "Radians", "Bits">>
 BaseQuot == {Div(U(BaseUnits[i]), U(BaseUnits[j])) : i, j \in 1..Len(BaseUnits)} \ {Div(U(BaseUnits[i]), U(BaseUnits[i])) : i \in 1..Len(BaseUnits)}
